@@ -67,6 +67,7 @@ PROPS["C14"] = {
         Leg("shared-readers", "c14", "^TestSharedReaders$", engine="sched", checks=(1500, 40000), shards=(2, 16), tests=["shared-readers"], replay_attempts=5),
         Leg("shared-readers-race", "c14", "^TestSharedReaders$", engine="sched", race=True, checks=(400, 8000), shards=(2, 8), tests=["shared-readers"], replay_attempts=5),
         Leg("random-no-tzdata", "c14", "^TestRandom$", wrap="no-tzdata", env={"ZONEINFO": ""}, checks=(20000, 300000), shards=(1, 8), tests=["random"]),
+        Leg("huge-386", "c14", "^TestHuge$", goarch="386", checks=(2000, 30000), shards=(1, 2), tests=["huge"]),
         Leg("grid-386", "c14", "^TestGrid$", engine="enumerate", rapid=False, goarch="386", shards=(1, 1), tests=["grid"]),
         Leg("random-386", "c14", "^TestRandom$", goarch="386", checks=(50000, 1000000), shards=(1, 8), tests=["random"]),
         Leg("fuzz-bits", "c14", "", engine="native-fuzz", fuzz="FuzzBits", fuzztime=120, tiers=("thorough",)),
